@@ -252,12 +252,12 @@ def sxHref : SX → Option SHref
   | .list [.atom "str", qq, h] => match sxQuote qq, sxCps h with
     | some qq, some h => some (.str qq h)
     | _, _ => none
-  | .list [.atom "url", .atom up, pre, post, qq, h] =>
-    match up.toList, sxWsChars pre, sxWsChars post, sxCps h with
-    | [a, b, c], some pre, some post, some h =>
+  | .list [.atom "url", up, pre, post, qq, h] =>
+    match sxMask up, sxWsChars pre, sxWsChars post, sxCps h with
+    | some up, some pre, some post, some h =>
       (match qq with
-        | .atom "none" => some (.url (a == '1', b == '1', c == '1') pre post none h)
-        | qq => (sxQuote qq).map fun qq => .url (a == '1', b == '1', c == '1') pre post (some qq) h)
+        | .atom "none" => some (.url up pre post none h)
+        | qq => (sxQuote qq).map fun qq => .url up pre post (some qq) h)
     | _, _, _, _ => none
   | _ => none
 
